@@ -410,7 +410,7 @@ func ruleMigrationOrder(w *core.World, r *core.Report) {
 // ruleUpdateCheckpoint checks the re-keying routine on all of its paths
 // (used by C17 and, as the "no window without a position" condition, by C07).
 func ruleUpdateCheckpoint(w *core.World, r *core.Report, idOrder, idDb string) {
-	r.Rule(idOrder, "UpdateCheckpoint: SetCheckpoint ≺ SetCheckpointHash ≺ DelCheckpoint ≺ DelCheckpointHash on every path; a failed step is the last effect", 1)
+	r.Rule(idOrder, "UpdateCheckpoint: SetCheckpoint ≺ SetCheckpointHash ≺ DelCheckpoint ≺ DelCheckpointHash on every path; a failed step is the last effect; writes address (new name, new id), deletes (old name, old id)", 2)
 	r.Rule(idDb, "the database the old checkpoint was found in is selected before the new checkpoint is written", 1)
 	if f := fn(w, r, "pkg/redis/checkpoint.UpdateCheckpoint"); f != nil {
 		order := map[string]int{"SetCheckpoint": 1, "SetCheckpointHash": 2, "DelCheckpoint": 3, "DelCheckpointHash": 4}
@@ -491,6 +491,54 @@ func ruleUpdateCheckpoint(w *core.World, r *core.Report, idOrder, idDb string) {
 			r.Fail("UpdateCheckpoint/database", bad2Pos, "%s", bad2)
 		} else {
 			r.Check(withGet > 0, "UpdateCheckpoint/database", f.Pos(), "no path restores an old checkpoint")
+		}
+		// which record each step addresses: writes go to (new name, new id), deletes to (old name, old id)
+		r.Rule(idOrder, "", 1)
+		if len(f.Params) == 3 {
+			newName := ssa.Value(f.Params[1])
+			isNewId := func(v ssa.Value) bool { // ids[0]
+				u, ok := core.Unwrap(v).(*ssa.UnOp)
+				if !ok || u.Op != token.MUL {
+					return false
+				}
+				ia, ok := u.X.(*ssa.IndexAddr)
+				return ok && ia.X == ssa.Value(f.Params[2]) && isConstInt(0)(ia.Index)
+			}
+			isOldName := isResultOf("pkg/redis/checkpoint.GetCheckpointHash", 0)
+			isOldId := func(v ssa.Value) bool { // the RunId of the record found, read before it is overwritten
+				return fieldOf("RunId", func(ssa.Value) bool { return true })(core.Unwrap(v))
+			}
+			okAll, n := true, 0
+			var pos token.Pos = f.Pos()
+			var delId ssa.Value
+			for _, st := range core.Sites(f, false) {
+				a := st.Args()
+				switch st.Name {
+				case "pkg/redis/checkpoint.SetCheckpointHash":
+					n++
+					if len(a) != 3 || !isNewId(a[1]) || core.Unwrap(a[2]) != newName {
+						okAll, pos = false, st.Pos()
+					}
+				case "pkg/redis/checkpoint.DelCheckpoint":
+					n++
+					if len(a) != 3 || !isOldName(a[1]) || !isOldId(a[2]) || isNewId(a[2]) {
+						okAll, pos = false, st.Pos()
+					} else {
+						delId = core.Unwrap(a[2])
+					}
+				case "pkg/redis/checkpoint.DelCheckpointHash":
+					n++
+					if len(a) != 2 || !isOldId(a[1]) || isNewId(a[1]) || (delId != nil && core.Unwrap(a[1]) != delId) {
+						okAll, pos = false, st.Pos()
+					}
+				case "pkg/redis/checkpoint.GetCheckpoint":
+					n++
+					if len(a) != 3 || !isOldName(a[1]) {
+						okAll, pos = false, st.Pos()
+					}
+				}
+			}
+			r.Check(okAll && n == 4, "UpdateCheckpoint/addresses", pos, "the old record is read and deleted under the name the index gave and the id stored in it; the index is repointed from the new id to the new name. Deleting under the new name removes the record that was just written whenever only the name changed (steps found: %d)", n)
 		}
 	}
 
